@@ -222,6 +222,59 @@ let replay_events cx site (b0 : q list) (r : cursor) : int =
   done;
   !certified
 
+(* all checks on one "direct" output block: Blind (both modes), FIB, QMDP, PBVI, PERSEUS on model m *)
+let check_direct_block (cx : ctx) (repr : string) (hB : int) (hF : int) (hQ : int) (exact : bool) (grid : q list list) (r : cursor) : unit =
+  let m = cx.m in
+  (* discounts in (0.9999, 1): the unrepaired start value/std::max(0.0001, 1-discount) (fixes/C03-bound-init-guard.patch) *)
+  let gsfx = if q_lt (q_sub q_one m.pm.gam) (q_of_ints 1 10000) then "_guard" else "" in
+  let rel = if exact then q_zero else q_of_ints 1 1000000000 in
+  check_status "direct" r;
+  (* ---- parse everything first *)
+  let sB = "BlindStrategies::operator()" and sF = "FastInformedBound::operator()" and sQ = "QMDP::operator()"
+  and sP = "PBVI::operator()" and sE = "PERSEUS::operator()" in
+  expect r "blindT"; let _ = fin sB r in let blindT = read_vlist sB cx.s r in
+  expect r "blindF"; let _ = fin sB r in let blindF = read_vlist sB cx.s r in
+  let fibq = if repr <> "sparse" then begin expect r "fib"; let _ = fin sF r in Some (read_mat sF r) end else None in
+  expect r "qmdp"; let _ = fin sQ r in let qq = read_mat sQ r in let qvl = read_vlist sQ cx.s r in
+  expect r "pbvi"; let _ = fin sP r in let np = bounded_count sP r in let pbvi_full = take_n np (fun () -> read_vlist_full sP cx.s r) in let pbvi = List.map strip pbvi_full in
+  expect r "perseus"; let _ = fin sE r in let ne = bounded_count sE r in let pers_full = take_n ne (fun () -> read_vlist_full sE cx.s r) in let pers = List.map strip pers_full in
+  (* ---- O *)
+  if List.length blindT <> cx.a || List.length blindF <> cx.a then oracle_fail "blind_shape" sB "one vector per action expected";
+  List.iter (fun b ->
+      List.iter (fun (_, v) -> check_lb cx ("blind_sound" ^ gsfx) sB "Blind(fasterConvergence) vector" b (dotq v b)) blindT;
+      List.iter (fun (_, v) -> check_le_ev cx "blind_finite_sound" sB "Blind(finite) vector" (hB + 1) b (dotq v b)) blindF;
+      (match fibq with Some q -> check_ub cx ("fib_sound" ^ gsfx) sF "FIB surface" b (lin_surface m q b) | None -> ());
+      if hQ >= 1 then check_ge_ev cx "qmdp_sound" sQ "QMDP surface" hQ b (lin_surface m qq b);
+      List.iteri (fun k vl -> check_le_ev cx "pbvi_sound" sP (Printf.sprintf "PBVI horizon-%d surface" k) k b (best_of vl b)) pbvi;
+      List.iteri (fun k vl -> List.iter (fun (_, v) -> check_lb cx "perseus_sound" sE (Printf.sprintf "PERSEUS horizon-%d vector" k) b (dotq v b)) vl) pers
+    ) grid;
+  (* premise of perseus_sound on the implementation's own start vector: k (1 - g) <= every reward *)
+  (match pers_full with
+   | v0 :: _ ->
+     List.iter (fun e -> List.iter (fun k ->
+         let lhs = q_mul k (q_sub q_one m.pm.gam) in
+         if not (le_tol lhs cx.rmin) then
+           oracle_fail "perseus_start_sound" sE (Printf.sprintf "start value %s times (1 - discount) = %s exceeds the minimal reward %s: not a lower bound of V*"
+                                                   (string_of_q k) (string_of_q lhs) (string_of_q cx.rmin))) e.vals) v0
+   | [] -> ());
+  (* proof-carrying lower bounds: every PBVI / PERSEUS entry is the plan of its links over the previous list
+     (C02.Spec.check_vf); pbvi_sound / perseus_sound then apply to the implementation's own lists *)
+  let ptol = q_of_ints 1 100000000 in   (* R/|O| shares are not dyadic for |O| = 3 *)
+  (match pbvi_full with
+   | v0 :: rest_ -> if not (check_vf ptol m v0 rest_) then oracle_fail "pbvi_entries_are_plans" sP "an entry is not the plan of its links (or a link is out of range)"
+   | [] -> oracle_fail "pbvi_shape" sP "empty value function");
+  (match pers_full with
+   | v0 :: rest_ -> if not (check_vf ptol m v0 rest_) then oracle_fail "perseus_entries_are_plans" sE "an entry is not the plan of its links (or a link is out of range)"
+   | [] -> oracle_fail "perseus_shape" sE "empty value function");
+  (* QMDP's VList is the list of columns of its Q-function *)
+  List.iteri (fun a (_, v) -> if not (List.for_all2 q_eq v (qcol qq (nat a))) then oracle_fail "qmdp_vlist" sQ "VList entry is not the Q-function column") qvl;
+  (* ---- C *)
+  let (_, mT) = blind_run m true (nat hB) q_zero in cmp_vecs ~rel ("blind_run_fc" ^ gsfx) sB mT (List.map snd blindT);
+  let (_, mF) = blind_run m false (nat hB) q_zero in cmp_vecs ~rel "blind_run" sB mF (List.map snd blindF);
+  (match fibq with Some q -> let (_, mq) = fib_run m (nat hF) q_zero in cmp_vecs ~rel ("fib_run" ^ gsfx) sF mq q | None -> ());
+  let (_, mq) = qmdp_run m (nat hQ) q_zero in cmp_vecs ~rel "qmdp_run" sQ mq qq;
+  ()
+
 let judge _id (c : cursor) (r : cursor) : bool * string =
   let kind = next c in
   match kind with
@@ -235,55 +288,26 @@ let judge _id (c : cursor) (r : cursor) : bool * string =
     let bs = read_beliefs c cx.s in
     let grid = grid_with_corners cx bs in
     let exact = (next c = "exact") in
-    (* discounts in (0.9999, 1): the unrepaired start value/std::max(0.0001, 1-discount) (fixes/C03-bound-init-guard.patch) *)
-    let gsfx = if q_lt (q_sub q_one m.pm.gam) (q_of_ints 1 10000) then "_guard" else "" in
-    let rel = if exact then q_zero else q_of_ints 1 1000000000 in
-    check_status "direct" r;
-    (* ---- parse everything first *)
-    let sB = "BlindStrategies::operator()" and sF = "FastInformedBound::operator()" and sQ = "QMDP::operator()"
-    and sP = "PBVI::operator()" and sE = "PERSEUS::operator()" in
-    expect r "blindT"; let _ = fin sB r in let blindT = read_vlist sB cx.s r in
-    expect r "blindF"; let _ = fin sB r in let blindF = read_vlist sB cx.s r in
-    let fibq = if repr <> "sparse" then begin expect r "fib"; let _ = fin sF r in Some (read_mat sF r) end else None in
-    expect r "qmdp"; let _ = fin sQ r in let qq = read_mat sQ r in let qvl = read_vlist sQ cx.s r in
-    expect r "pbvi"; let _ = fin sP r in let np = bounded_count sP r in let pbvi_full = take_n np (fun () -> read_vlist_full sP cx.s r) in let pbvi = List.map strip pbvi_full in
-    expect r "perseus"; let _ = fin sE r in let ne = bounded_count sE r in let pers_full = take_n ne (fun () -> read_vlist_full sE cx.s r) in let pers = List.map strip pers_full in
-    (* ---- O *)
-    if List.length blindT <> cx.a || List.length blindF <> cx.a then oracle_fail "blind_shape" sB "one vector per action expected";
-    List.iter (fun b ->
-        List.iter (fun (_, v) -> check_lb cx ("blind_sound" ^ gsfx) sB "Blind(fasterConvergence) vector" b (dotq v b)) blindT;
-        List.iter (fun (_, v) -> check_le_ev cx "blind_finite_sound" sB "Blind(finite) vector" (hB + 1) b (dotq v b)) blindF;
-        (match fibq with Some q -> check_ub cx ("fib_sound" ^ gsfx) sF "FIB surface" b (lin_surface m q b) | None -> ());
-        if hQ >= 1 then check_ge_ev cx "qmdp_sound" sQ "QMDP surface" hQ b (lin_surface m qq b);
-        List.iteri (fun k vl -> check_le_ev cx "pbvi_sound" sP (Printf.sprintf "PBVI horizon-%d surface" k) k b (best_of vl b)) pbvi;
-        List.iteri (fun k vl -> List.iter (fun (_, v) -> check_lb cx "perseus_sound" sE (Printf.sprintf "PERSEUS horizon-%d vector" k) b (dotq v b)) vl) pers
-      ) grid;
-    (* premise of perseus_sound on the implementation's own start vector: k (1 - g) <= every reward *)
-    (match pers_full with
-     | v0 :: _ ->
-       List.iter (fun e -> List.iter (fun k ->
-           let lhs = q_mul k (q_sub q_one m.pm.gam) in
-           if not (le_tol lhs cx.rmin) then
-             oracle_fail "perseus_start_sound" sE (Printf.sprintf "start value %s times (1 - discount) = %s exceeds the minimal reward %s: not a lower bound of V*"
-                                                     (string_of_q k) (string_of_q lhs) (string_of_q cx.rmin))) e.vals) v0
-     | [] -> ());
-    (* proof-carrying lower bounds: every PBVI / PERSEUS entry is the plan of its links over the previous list
-       (C02.Spec.check_vf); pbvi_sound / perseus_sound then apply to the implementation's own lists *)
-    let ptol = q_of_ints 1 100000000 in   (* R/|O| shares are not dyadic for |O| = 3 *)
-    (match pbvi_full with
-     | v0 :: rest_ -> if not (check_vf ptol m v0 rest_) then oracle_fail "pbvi_entries_are_plans" sP "an entry is not the plan of its links (or a link is out of range)"
-     | [] -> oracle_fail "pbvi_shape" sP "empty value function");
-    (match pers_full with
-     | v0 :: rest_ -> if not (check_vf ptol m v0 rest_) then oracle_fail "perseus_entries_are_plans" sE "an entry is not the plan of its links (or a link is out of range)"
-     | [] -> oracle_fail "perseus_shape" sE "empty value function");
-    (* QMDP's VList is the list of columns of its Q-function *)
-    List.iteri (fun a (_, v) -> if not (List.for_all2 q_eq v (qcol qq (nat a))) then oracle_fail "qmdp_vlist" sQ "VList entry is not the Q-function column") qvl;
-    (* ---- C *)
-    let (_, mT) = blind_run m true (nat hB) q_zero in cmp_vecs ~rel ("blind_run_fc" ^ gsfx) sB mT (List.map snd blindT);
-    let (_, mF) = blind_run m false (nat hB) q_zero in cmp_vecs ~rel "blind_run" sB mF (List.map snd blindF);
-    (match fibq with Some q -> let (_, mq) = fib_run m (nat hF) q_zero in cmp_vecs ~rel ("fib_run" ^ gsfx) sF mq q | None -> ());
-    let (_, mq) = qmdp_run m (nat hQ) q_zero in cmp_vecs ~rel "qmdp_run" sQ mq qq;
+    check_direct_block cx repr hB hF hQ exact grid r;
     (hB >= 1 && hF >= 1 && cx.o >= 2, "direct-" ^ repr ^ (if exact then "-exact" else ""))
+  | "reuse" ->
+    let hB = next_int c in let hF = next_int c in let hQ = next_int c in let _hP = next_int c in
+    let _nPers = next_int c in let _atol = next_q c in let np = next_int c in
+    let ms = take_n np (fun () -> read_pomdp c) in
+    let cxs = List.map mk_ctx ms in
+    let cx0 = List.hd cxs in
+    let b0 = take_n cx0.s (fun () -> next_q c) in
+    let bs = read_beliefs c cx0.s in
+    List.iter (fun cx -> check_direct_block cx "dense" hB hF hQ false (grid_with_corners cx bs) r) cxs;
+    if peek r = "NOCONV" then (true, "reuse-noconv") else begin
+      List.iter (fun (tag, site) ->
+          List.iteri (fun k cx ->
+              expect r tag;
+              let lb = fin site r in let ub = fin site r in let vl = read_vlist site cx.s r in let ubq = read_mat site r in
+              check_anytime cx site (Printf.sprintf "reused solver, problem %d" (k + 1)) b0 (grid_with_corners cx bs) (lb, ub, vl, ubq)) cxs)
+        [("sarsop", "SARSOP::operator()"); ("gapmin", "GapMin::operator()")];
+      (true, "reuse")
+    end
   | "conv" ->
     let tol = next_q c in
     let m = read_pomdp c in
